@@ -159,9 +159,12 @@ BASE_LIB = {
             {"decl": "namespace deep", "declarations": [
                 {"decl": "void work(int a)"},
                 {"decl": "int count(const std::string &s)"},
+                {"decl": "int sumValues(const int *values +dimension(..), int nvalues)"},
+                {"decl": "int *getPtr(int n) +dimension(n)"},
             ]},
         ]},
         {"decl": "void f3(std::string &s +intent(out))"},
+        {"decl": "int sumAll(const int *values +dimension(..), int nvalues)"},
     ],
 }
 
@@ -171,6 +174,10 @@ FUNC_OPTIONS = [("F_string_len_trim", False), ("F_force_wrapper", True), ("C_for
                 ("C_name_template", "XX_{C_prefix}{C_name_scope}{underscore_name}{function_suffix}{template_suffix}"),
                 ("F_C_name_template", "yy_{F_C_prefix}{F_name_scope}{underscore_name}{function_suffix}{template_suffix}"),
                 ("return_scalar_pointer", "scalar"),
+                # more options consumed per function: the rank range of assumed-rank generics, the variable name templates of a
+                # wrapper's hidden arguments, the generic and bufferify switches
+                ("F_assumed_rank_min", 1), ("F_assumed_rank_max", 2), ("F_create_generic", False), ("F_return_fortran_pointer", False),
+                ("C_var_len_template", "NN{c_var}"), ("C_var_trim_template", "LL{c_var}"), ("C_var_size_template", "SS{c_var}"),
                 # selection of wrappers: stated on a container or on each of its members
                 # (the library has the wrapper OFF for these runs: switching it ON for a namespace equals switching it ON for each
                 #  member, because a container of a selected member is itself selected)
@@ -246,7 +253,10 @@ def relations(ctx, quick):
         byk = {}
         for t in todo:
             byk.setdefault(t[1][1], []).append(t)
-        todo = [rng.choice(v) for v in byk.values()] + rng.sample(todo, 6) + [t for t in todo if t[1][1].startswith("wrap_")]
+        # every key: once at the library (all functions are below it), once at a random inner container; a few extra placements
+        todo = [t for v in byk.values() for t in v if t[0] == []] + [rng.choice([t for t in v if t[0] != []] or v) for v in byk.values()] \
+            + rng.sample(todo, 6) + [t for t in todo if t[1][1].startswith("wrap_")]
+        todo = list(dict((str(t), t) for t in todo).values())
     from concurrent.futures import ThreadPoolExecutor
 
     def r1(job):
